@@ -40,8 +40,7 @@ spec fn next_request_ok(s: &State, r: Option<GetSuccessorsRequest>) -> bool {
 
 //@extract file=canister/src/heartbeat.rs item="fn maybe_get_successors_request" props=C13
 //@ ret r
-//@ rewrite R7 "with_state\(\|state\| match" => "{ let state: &State = vp_state(); match"
-//@ rewrite R7 "\}\)\s*\}$" => "} } }"
+//@ r7 ro="vp_state()" type=State
 //@ spec
 //@| requires wf_sync(&global_state()),
 //@| ensures next_request_ok(&global_state(), r),
